@@ -6,6 +6,9 @@ CONSTANTS
   SkipSet = {}
   HdrSet = {}
   RefPolicy = "first"
+  MaskSet = {{"n", "w", "r"}, {"n"}, {"w"}, {"r"}, {"n", "w"}, {"n", "r"}, {"w", "r"}}
+  TypeResets = TRUE
+  SkipUndecoded = TRUE
   FillOnly = FALSE
   BulkN = 5
   RoleLimit = 250
